@@ -1,4 +1,5 @@
 mod common;
+mod c10;
 mod c13;
 mod c15;
 mod c05;
@@ -21,6 +22,7 @@ fn main() {
         "C05" => c05::run(&args),
         "C15" => c15::run(&args),
         "C13" => c13::run(&args),
+        "C10" => c10::run(&args),
         x => {
             eprintln!("unknown property {}", x);
             std::process::exit(2);
